@@ -37,3 +37,19 @@ Proof. vm_compute. reflexivity. Qed.
 Lemma scmp_unknown_set_type_then_read_out_of_bounds :
   (v1 <- legacy_scmp_unknown_set_type 130 scmp_unknown8 ;; run_acc KScmp 17 0 v1) = Panic P_OOB.
 Proof. vm_compute. reflexivity. Qed.
+
+(** The two safe setters that are NOT layout preserving (excluded from
+    safe_setters_preserve_layout_partial) -- deliberate in the code, no finding: they rewrite a
+    field the constructor checks, but no accessor derives an extent from it. *)
+(* ScionHeaderView::set_version(1): the bytes would no longer be accepted (UnsupportedVersion),
+   every accessor of the existing view still stays inside it *)
+Lemma set_version_changes_revalidation_only :
+  (v1 <- run_mut KUdpPkt 1000 0 1 udp_pkt ;; Ok (required_size KUdpPkt v1)) = Ok (Err (VOther E_VERSION))
+  /\ (v1 <- run_mut KUdpPkt 1000 0 1 udp_pkt ;; run_acc KUdpPkt 10 0 v1) = Ok (VL [36; 48]).
+Proof. vm_compute. split; reflexivity. Qed.
+(* UdpDatagramView::set_length(3) on a datagram view: re-validation fails, payload() unchanged *)
+Definition udp_dgram : bytes := [48; 57; 1; 187; 0; 12; 18; 52; 7; 7; 7; 7].
+Lemma set_length_changes_revalidation_only :
+  (v1 <- run_mut KUdp 2 0 3 udp_dgram ;; Ok (required_size KUdp v1)) = Ok (Err (VOther E_UDPLEN))
+  /\ (v1 <- run_mut KUdp 2 0 3 udp_dgram ;; run_acc KUdp 4 0 v1) = Ok (VL [8; 12]).
+Proof. vm_compute. split; reflexivity. Qed.
